@@ -407,6 +407,7 @@ func cmdCheck(args []string) int {
 	if *tier == "thorough" {
 		cfg.TimeoutMs = 60000
 		cfg.Race = true
+		specTier = "thorough"
 	}
 	c := &CheckCtx{eng: eng, prop: p, tier: *tier, seed: seed, cfg: cfg, scratch: scratch, oblTr: map[*Obligation]*Tr{},
 		funcs: map[string]bool{}, assumptions: map[string]bool{}, trusted: map[string]bool{}, extra: map[string]any{}, start: start}
